@@ -49,6 +49,32 @@ func reqHeaderOf(v ssa.Value) bool {
 	return true
 }
 
+// reqHeaderValues: v is (a slice of) the live value slice of a field of a request's header:
+// h.Values(k), h[k] or the value variable of a range over h.
+func reqHeaderValues(v ssa.Value) bool {
+	hit := false
+	SliceBack(v, func(x ssa.Value) bool {
+		switch y := x.(type) {
+		case *ssa.Call:
+			if CalleeName(y.Common()) == "(net/http.Header).Values" && reqHeaderOf(y.Call.Args[0]) {
+				hit = true
+			}
+		case *ssa.Lookup:
+			if NamedType(y.X.Type()) == "net/http.Header" && reqHeaderOf(y.X) {
+				hit = true
+			}
+		case *ssa.Extract:
+			if nx, isNext := y.Tuple.(*ssa.Next); isNext && y.Index == 2 {
+				if rg, isRg := nx.Iter.(*ssa.Range); isRg && NamedType(rg.X.Type()) == "net/http.Header" && reqHeaderOf(rg.X) {
+					hit = true
+				}
+			}
+		}
+		return !hit
+	})
+	return hit
+}
+
 func requestMutations(fn *ssa.Function) []requestMutation {
 	var out []requestMutation
 	// requests created in this function are the agent's own outgoing requests
@@ -81,9 +107,18 @@ func requestMutations(fn *ssa.Function) []requestMutation {
 					return
 				}
 				out = append(out, requestMutation{fn, i, strings.TrimPrefix(n, "(*net/http.Request)."), "", nil})
+			case "sort.Strings", "sort.Slice", "sort.SliceStable", "sort.Sort", "sort.Stable", "slices.Sort", "slices.SortFunc", "slices.SortStableFunc", "slices.Reverse", "math/rand.Shuffle":
+				// sorting (or otherwise permuting) the value slice of a header field in place:
+				// Header.Values and header[k] hand out the live slice, not a copy
+				if len(PArgs(&x.Call)) > 0 && reqHeaderValues(PArgs(&x.Call)[0]) {
+					out = append(out, requestMutation{fn, i, "Header.values-in-place", "", nil})
+				}
 			default:
 				if b, ok := x.Call.Value.(*ssa.Builtin); ok && (b.Name() == "delete" || b.Name() == "clear") && len(PArgs(&x.Call)) > 0 && reqHeaderOf(PArgs(&x.Call)[0]) {
 					out = append(out, requestMutation{fn, i, "Header.delete", "", nil})
+				}
+				if b, ok := x.Call.Value.(*ssa.Builtin); ok && b.Name() == "copy" && len(PArgs(&x.Call)) > 0 && reqHeaderValues(PArgs(&x.Call)[0]) {
+					out = append(out, requestMutation{fn, i, "Header.values-in-place", "", nil})
 				}
 			}
 		case *ssa.MapUpdate:
@@ -92,6 +127,10 @@ func requestMutations(fn *ssa.Function) []requestMutation {
 				out = append(out, requestMutation{fn, i, "Header.store", canonicalHeaderKey(k), x.Key})
 			}
 		case *ssa.Store:
+			if ia, isIA := x.Addr.(*ssa.IndexAddr); isIA && reqHeaderValues(ia.X) {
+				out = append(out, requestMutation{fn, i, "Header.values-in-place", "", nil})
+				return
+			}
 			base, f, ok := FieldAddrOf(x.Addr)
 			if !ok {
 				return
